@@ -199,11 +199,18 @@ func fsmApplyAdd(c *Ctx, rule string, applyAdd *ssa.Function) {
 			if al, ok := t.Args[0].V.(*ssa.Alloc); ok && namedIs(deref(al.Type()), pkgConsensus, "VersionMetadata") {
 				bf := p.AllocFields(t.Args[0])
 				if len(bf["PreviousVersion"]) == 1 && len(bf["NewVersion"]) == 1 {
-					pt, nt := p.UpParam(bf["PreviousVersion"][0]), bf["NewVersion"][0]
+					// getters of the node's package are looked through (n.lastApplied() for n.state.BalloonVersion)
+					pt, nt := p.UpParam(p.XLocal(bf["PreviousVersion"][0], applyAdd)), p.XLocal(bf["NewVersion"][0], applyAdd)
 					prev, nw = pt.String(), nt.String()
-					okMD = pt.IsField("BalloonVersion", func(b *Term) bool {
-						return b.IsField("state", func(r *Term) bool { return r.Strip().Op == "param" && r.Strip().Idx == 0 })
-					}) && nt.IsField("BalloonVersion", isParam(applyAdd, stateI))
+					okMD = nt.IsField("BalloonVersion", isParam(applyAdd, stateI))
+					for _, alt := range pt.Alts() {
+						alt = p.UpParam(alt)
+						if !alt.IsField("BalloonVersion", func(b *Term) bool {
+							return b.IsField("state", func(r *Term) bool { return r.Strip().Op == "param" && r.Strip().Idx == 0 })
+						}) {
+							okMD = false
+						}
+					}
 				}
 			}
 		}
